@@ -8,10 +8,12 @@ C. code->spec: long random histories on the real class (capacities 1..1000, rate
    buckets enabled are recorded and judged by TokenBucket_Trace (every pair of grants).
 """
 import math
+import threading
 
 from . import tlc, env
 from .core import Machinery
 
+_LOCK = threading.Lock()
 PROP_FLAGS = {'window', 'windowall', 'waitlong'}
 DRIFT_FLAGS = {'decision', 'waitshort', 'state', 'clock'}
 
@@ -54,32 +56,35 @@ class Recorder(object):
       return 2 ** 30 if t > 0 else -2 ** 30
     return int(round(t))
 
+  def _st(self):
+    return int(round(self.bucket.timestamp / self.tick))
+
   def advance(self, dticks):
     self.clock.now = (self.ticks() + dticks) * self.tick
 
   def peek(self):
     n = self.ticks()
     ok = self.bucket.peek(1)
-    self.ev.append(dict(op='peek', now=n, ok=int(bool(ok)), wait=0, c=0, r=0, tok=self._tok()))
+    self.ev.append(dict(op='peek', now=n, ok=int(bool(ok)), wait=0, c=0, r=0, tok=self._tok(), st=self._st()))
     return ok
 
   def try_drain(self):
     n = self.ticks()
     ok = self.bucket.drain(1)
-    self.ev.append(dict(op='try', now=n, ok=int(bool(ok)), wait=0, c=0, r=0, tok=self._tok()))
+    self.ev.append(dict(op='try', now=n, ok=int(bool(ok)), wait=0, c=0, r=0, tok=self._tok(), st=self._st()))
     return ok
 
   def block_drain(self):
     n = self.ticks()
     ok = self.bucket.drain(1, blocking=True)
     w = self.ticks() - n
-    self.ev.append(dict(op='block', now=n, ok=int(bool(ok)), wait=w, c=0, r=0, tok=self._tok()))
+    self.ev.append(dict(op='block', now=n, ok=int(bool(ok)), wait=w, c=0, r=0, tok=self._tok(), st=self._st()))
     return w
 
   def set_limits(self, c, rnum):
     n = self.ticks()
     self.bucket.setCapacityAndFillRate(c, rnum / (self.RD * self.tick))
-    self.ev.append(dict(op='set', now=n, ok=1, wait=0, c=c, r=rnum, tok=self._tok()))
+    self.ev.append(dict(op='set', now=n, ok=1, wait=0, c=c, r=rnum, tok=self._tok(), st=self._st()))
 
   def trace(self):
     return dict(cap=self.cap, rn=self.rn, ev=self.ev)
@@ -158,8 +163,9 @@ def judge(ctx, RD, traces, what):
     verdicts[v[1]] = set(v[2])
   if len(verdicts) != len(traces):
     raise Machinery('%s: %d of %d traces judged\n%s' % (what, len(verdicts), len(traces), res.out[-2000:]))
-  ctx.states += res.distinct
-  ctx.transitions += res.generated
+  with _LOCK:
+    ctx.states += res.distinct
+    ctx.transitions += res.generated
   return verdicts
 
 
@@ -221,7 +227,7 @@ def run(ctx):
   handle_verdicts(ctx, judge(ctx, RDsim, sim_traces, 'replay traces'), sim_traces, 'replay')
 
   # C. code -> spec
-  nhist = ctx.pick(200, 5000)
+  nhist = ctx.pick(200, 4000)
   nops = 200
   batch = []
   RD = None
@@ -231,9 +237,12 @@ def run(ctx):
     ctx.evaluations += 1
   ctx.sample(dict(kind='random history (ticks of 1/1024 s, rate numerators over 61440)', cap=batch[0]['cap'],
                   rn=batch[0]['rn'], events=batch[0]['ev'][:8]))
-  for k in range(0, len(batch), 250):
-    chunk = batch[k:k + 250]
-    handle_verdicts(ctx, judge(ctx, RD, chunk, 'random histories'), chunk, 'history')
+  from concurrent.futures import ThreadPoolExecutor
+  chunks = [batch[k:k + 125] for k in range(0, len(batch), 125)]
+  with ThreadPoolExecutor(max_workers=12) as ex:       # one single-worker TLC per chunk, 12 at a time
+    results = list(ex.map(lambda ch: judge(ctx, RD, ch, 'random histories'), chunks))
+  for chunk, verdicts in zip(chunks, results):
+    handle_verdicts(ctx, verdicts, chunk, 'history')
 
   # negative controls: a corrupted field must be flagged
   import copy
@@ -241,7 +250,7 @@ def run(ctx):
   t_last = bad['ev'][-1]['now'] + bad['ev'][-1]['wait']
   nextra = 2 * max([bad['cap']] + [e['c'] for e in bad['ev']]) + 3
   for _ in range(nextra):   # a burst far above 2*burst in zero time
-    bad['ev'].append(dict(op='try', now=t_last, ok=1, wait=0, c=0, r=0, tok=0))
+    bad['ev'].append(dict(op='try', now=t_last, ok=1, wait=0, c=0, r=0, tok=0, st=t_last))
   bad2 = copy.deepcopy(batch[1])
   shift = 0
   for e in bad2['ev']:
@@ -250,7 +259,7 @@ def run(ctx):
       e['wait'] += 50
       shift = 50
   if not shift:
-    bad2['ev'].append(dict(op='block', now=bad2['ev'][-1]['now'] + bad2['ev'][-1]['wait'], ok=1, wait=10 ** 6, c=0, r=0, tok=0))
+    bad2['ev'].append(dict(op='block', now=bad2['ev'][-1]['now'] + bad2['ev'][-1]['wait'], ok=1, wait=10 ** 6, c=0, r=0, tok=0, st=0))
   v = judge(ctx, RD, [bad, bad2], 'negative control')
   ctx.negative_control('burst of grants appended to a recorded trace', bool(v[1] & {'window', 'windowall'}))
   ctx.negative_control('recorded wait lengthened', 'waitlong' in v[2] or 'state' in v[2])
